@@ -237,7 +237,7 @@ pub fn c04(ctx: &Ctx) -> i32 {
     p.w_place = 16;
     p.w_create = 10;
     p.w_modify = 20;
-    p.w_reload = 0;
+    p.w_reload = 1; // a terminal record must also survive a snapshot reload unchanged
     p.p_tie = 0.1;
     let mut e3 = exh(3, &ADV01, true, true);
     e3.redundant_place = true;
